@@ -34,6 +34,7 @@ def run(ctx):
             chv = ctx.child(b, run='TestC10VarFirst$', timeout=600, env={'VERIF_C10_MODE': mode}, label='varfirst-' + mode)
             ctx.absorb(chv, what='TestC10VarFirst[' + mode + ']')
     bd = os.path.join(core.BIN, 'c10-default.test')
+    ctx.absorb(ctx.child(bd, run='TestC10Names', timeout=300, env={'VERIF_C10_MODE': 'default'}, label='names'), what='TestC10Names')
     ctx.absorb(ctx.child(bd, run='TestC10Concurrent', timeout=600, env={'VERIF_C10_MODE': 'default'}, label='concurrent'), what='TestC10Concurrent')
     if ctx.stats.get('functions_exact:default', 0) < 1000 or ctx.stats.get('variables_exact:default', 0) < 100:
         ctx.inconclusive.append('default link mode resolved too few symbols exactly')
